@@ -323,6 +323,11 @@ def run(ctx: Ctx):
         mf = ctx.func("vrp", f"VRPState.{mname}")
         tm = ast.unparse(mf.node)
         ctx.ob("C18-O4", "R18 table", mf, f"VRPState.{mname} computes the documented quantity of the state (term by term)", all(fr in tm for fr in frags), "", node=mf.node)
+        # every route, stop and customer the documented sum ranges over takes part: the loops have no way round a term
+        # except the ones listed with the method (sync_violation skips single-vehicle customers)
+        jumps = [x for x in own_nodes(mf.node) if isinstance(x, (ast.Continue, ast.Break))]
+        listed = sum(fr.count("continue") + fr.count("break") for fr in frags)
+        ctx.ob("C18-O4", "R12 NO-CARDINALITY-CUTOFF", mf, f"VRPState.{mname} skips no route, stop or customer beyond the documented exceptions", len(jumps) == listed, f"`{ast.unparse(jumps[-1])}` at line {jumps[-1].lineno} ({len(jumps)} jump(s), {listed} documented): a route that is passed over contributes nothing - 'the last stop is on time' does not make the earlier stops on time - and the objective of the returned state is below the documented sum" if jumps else "", node=jumps[-1] if jumps else mf.node)
         # no return bypasses the term-by-term computation: the accumulator (or the one summing expression) is returned,
         # or the empty value for an empty route
         mcfg = cfg_of(mf.node)
@@ -523,7 +528,16 @@ def _t_result_held_in_a_local(tree):
     _hold_alns_result(tree, "")
 
 
+def _v_lateness_skips_punctual_routes(tree):
+    g = M.find_func(tree, "VRPState.time_window_violation")
+    loop = [x for x in g.body if isinstance(x, ast.For)]
+    if not loop:
+        raise M.Skip("route loop not found")
+    loop[0].body[0:0] = M.stmts("if route and len(self.arrival_times[v]) == len(route) and self.arrival_times[v][-1] <= self.customers[route[-1]].tw_end:\n    continue")
+
+
 VARIANTS = [
+    M.Variant("time_window_violation passes over a route whose last stop is on time (seed C18-U)", VR, _v_lateness_skips_punctual_routes, "C18-O4"),
     M.Variant("routes of the best state re-ordered after the search scored it (seed C18-O)", VR, _v_routes_reordered_after_search, "C18-O4"),
     M.Variant("twin: the alns Result is kept in a local and returned unchanged", VR, _t_result_held_in_a_local, None),
     M.Variant("zero-duration fast path skips the clock updates (seed C18-A)", JS, _v_zero_duration_fast_path, "C18-O1"),
